@@ -194,6 +194,15 @@ def replay_cex(rep, pid, unit_name, cex):
             ans = 'error %s' % e
         v, desc = judge_op(case, ans)
         verdicts[profile] = (v, desc, ans)
+    if not any(v[0] is True for v in verdicts.values()):
+        # second attempt: the same operands as diagrams that this environment does not own (built with the public
+        # constructors, as diagrams from another environment or from BDD::from are)
+        line2 = line.replace('op ', 'rawop ', 1)
+        ans = driver_run([line2], 'dev')[0]
+        v, desc = judge_op(case, ans)
+        if v is True:
+            line = line2
+            verdicts = {'dev': (v, desc + ' [operands not owned by this environment]', ans)}
     case['replay'] = {p: {'violates': v[0], 'what': v[1], 'driver_answer': v[2]} for p, v in verdicts.items()}
     case['obligation'] = cex['obligation']
     case['unit'] = unit_name
@@ -347,6 +356,20 @@ def run_property(pid, units, validate_ops, selftests, bounds, assumptions, uncov
         if r.get('cex'):
             if r['cex']['case'].get('kind') == 'pair':
                 replay_pair(rep, pid, name, r['cex'])
+            elif r['cex']['case'].get('kind') == 'symhash':
+                case = r['cex']['case']
+                n1 = ''.join(ch for ch in case['names'][0] if ch.isalnum()) or 'a'
+                n2 = ''.join(ch for ch in case['names'][1] if ch.isalnum()) or 'b'
+                if n1 == n2:
+                    n2 = n2 + 'x'
+                line = 'symhash %d %s %s' % (case['id'] % (1 << 62), n1, n2)
+                ans = driver_run([line], 'dev')[0]
+                path = save_replay(pid, dict(case, driver_line=line, driver_answer=ans, obligation=r['cex']['obligation']))
+                if ans.startswith('ok') and 'eq=1' in ans and 'hasheq=0' in ans:
+                    rep.violations.append(('symbol:hash-vs-eq', 'symbols with id %d named %s / %s compare equal but hash differently: unique-table lookups miss and equal nodes are stored twice' % (case['id'] % (1 << 62), n1, n2), path))
+                    print('CONFIRMED ' + line + ': ' + ans)
+                else:
+                    rep.inconclusive.append('%s: hash/eq counterexample did not reproduce (%s)' % (name, ans[:80]))
             elif r['cex']['case'].get('kind') in ('table', 'freeindex', 'vars'):
                 import printcore
                 printcore.replay_print(rep, pid, name, r['cex'])
